@@ -27,6 +27,8 @@ RULE = ("to_chars: every value of int8/uint8 x every base 2..36 x every buffer l
         "from_chars/to_integer: every string of length <= 4 over {0,1,7,z,-,+,space,G} for the 8-bit types in bases 2,8,10,36, "
         "plus, for every type and base, the texts of max, max+1, max with one more digit, max/base, min, min-1 ... with leading "
         "zeros, upper case, white space, sign and garbage variants, plus seeded random digit strings up to 70 characters. "
+        "to_integer with check_overflow = false: the limit texts and seeded random texts in bases 2,8,10,16,36 (thorough: "
+        "all) for every type; for int/long/long long/wchar_t only those whose value is representable. "
         "strto*/sto*/ato*: every string of length <= 4 over {0,1,9,f,x,-,+,space} (strtol base 10 and base 0, strtoul "
         "base 16, stoi/atoi base 10, stoul base 0 up to length 3; thorough: 4), the limit texts of each function's type in "
         "every base 2..36 (ato*: 10) with the decorations above plus '+' and '0x', seeded random digit strings in bases "
@@ -42,7 +44,9 @@ ASSUMPTIONS = ["libstdc++ 12 <charconv>/<string> and glibc strto* are the refere
                "base is in [2,36] (the standard's precondition of to_chars/from_chars/from_integer; the code does not "
                "check it) or, for to_integer and the strto*/sto* wrappers, 0; to_string<Capacity> needs "
                "Capacity > number of characters (its TETL_PRECONDITION)",
-               "to_integer is modelled with check_overflow = true (the only configuration any wrapper uses)"]
+               "to_integer with check_overflow = false is only claimed for texts whose value is representable (the "
+               "contract of the option); outside it the run compares implementation and model (wrap-around) for the types "
+               "where the overflow is defined, and runs nothing for int/long (undefined behaviour)"]
 TRUSTED = ["hand model Tetl/C10/Model.lean tied to the source by the correspondence run (R1) on every run",
            "spec Tetl/C10/Spec.lean validated against libstdc++/glibc (R2) on every run",
            "etl::reverse is modelled by its contract (List.reverse of the sub-range), not by its swap loop (C06)"]
@@ -166,6 +170,23 @@ def auto_texts(ty, rnd):
             elif k == 4:
                 out.append(("+" if n >= 0 else "-+") + t.lstrip("-"))
     return out
+
+
+def py_parse(ty, text, b, ws):
+    """value of `text` under the to_integer grammar (None: no digits) - only used to keep texts whose value is not
+    representable away from the unchecked configuration of the types where that is undefined behaviour"""
+    bits, sg = TYPES[ALIAS.get(ty, ty)]
+    i = 0
+    if ws:
+        while i < len(text) and _is_space(ord(text[i])):
+            i += 1
+    neg = sg and i < len(text) and text[i] == "-"
+    if neg:
+        i += 1
+    v, n = 0, 0
+    while i < len(text) and text[i].lower() in DIG[:b] and ord(text[i]) < 128:
+        v, n, i = v * b + DIG.index(text[i].lower()), n + 1, i + 1
+    return None if n == 0 else (-v if neg else v)
 
 
 def random_text(b, rnd):
@@ -310,6 +331,21 @@ def generate(tier, seed):
         else:
             add("to_integer ty=%s s=%s base=%d ws=%d" % (ty, enc(t), b, rnd.randint(0, 1)), "to_integer/rand")
 
+    # ---- to_integer with check_overflow = false: every text for the types where an unrepresentable value wraps
+    # (unsigned, and narrower than int); for int / long (signed overflow = undefined behaviour) only texts whose
+    # value is representable
+    for ty in list(TYPES) + ["c8", "c16", "wc", "ill"]:
+        ub = TYPES[ALIAS.get(ty, ty)] in ((32, True), (64, True))
+        lo, hi = limits(ty)
+        for b in (range(2, 37) if thorough else (2, 8, 10, 16, 36)):
+            texts = parse_texts(ty, b, rnd) + [random_text(b, rnd) for _ in range(20 if thorough else 6)]
+            for t in texts:
+                ws = rnd.randint(0, 1)
+                v = py_parse(ty, t, b, ws)
+                if ub and v is not None and not lo <= v <= hi:
+                    continue
+                add("to_integer_nc ty=%s s=%s base=%d ws=%d" % (ty, enc(t), b, ws), "to_integer_nc")
+
     # ---- the C library / std::string families
     cfns = ["strtol", "strtoll", "strtoul", "strtoull"]
     afns = ["atoi", "atol", "atoll"]
@@ -441,6 +477,7 @@ THEOREMS = {
     "to_string": [P + "toStr_eq"],
     "from_chars": [P + "toInteger_eq", P + "fromChars_eq_partial", P + "fromChars_range", P + "overflow_exact"],
     "to_integer": [P + "toInteger_eq", P + "overflow_exact"],
+    "to_integer_nc": [P + "toInteger_unchecked_eq", P + "toInteger_unchecked_outside"],
     "round_trip": [P + "round_trip"],
     "cstr": [P + "toInteger_eq", P + "toInteger_auto_eq", P + "cstrto_eq_partial", P + "strto_eq_partial",
              P + "strto_auto_eq_partial", P + "ato_eq_partial"],
@@ -472,4 +509,11 @@ LEVEL_NOTE = ("Trusted: Lean kernel + propext/Classical.choice/Quot.sound; fidel
 # every modelled member has a theorem; what is compared but not proved:
 CORRESPONDENCE_ONLY = ["etl::reverse inside from_integer (modelled by its contract, loop not modelled here: C06)",
                        "sto* on views with an embedded NUL (theorem is about the view as given; the oracle truncates)",
-                       "sto* exceptions / strto* errno (outside the model: recorded findings)"]
+                       "sto* exceptions / strto* errno (outside the model: recorded findings)",
+                       "to_integer<check_overflow = false> on texts whose value is not representable: outside the option's "
+                       "contract, no theorem beyond toInteger_unchecked_outside; the wrap-around is compared implementation = "
+                       "model for unsigned and narrower-than-int types, int/long are not run there (undefined behaviour)",
+                       "to_integer / from_chars called directly with base 0: proved (toInteger_auto_eq), executed only "
+                       "through strto*/sto* (std::from_chars has no base 0 to validate the spec against)",
+                       "char8_t/char16_t/char32_t/wchar_t: the theorems are per (bits, signed); the reference of the run is the "
+                       "standard integer type of the same width and signedness"]
